@@ -25,9 +25,13 @@ type wrapConn struct {
 	failWriteAt int32 // fail every write from the n-th on (0 = never)
 	writes      int32
 	closed      int32
+	gate        atomic.Value // chan struct{}: while set and open, writes block (a peer that does not read)
 }
 
 func (c *wrapConn) Write(b []byte) (int, error) {
+	if g, ok := c.gate.Load().(chan struct{}); ok && g != nil {
+		<-g
+	}
 	n := atomic.AddInt32(&c.writes, 1)
 	f := atomic.LoadInt32(&c.failWriteAt)
 	if f != 0 && n >= f {
